@@ -87,6 +87,7 @@ def run(ctx, spec):
     for b in range(spec['batches']):
       if not ctx.want('batch%d' % b):
         continue
+      rng = ctx.rng('mixed', b)   # per batch, so that --replay regenerates it
       size = rng.choice([1, 2, 3, 5, 8, 13, 25, 40])
       if ctx.tier == 'quick':
         size = min(size, 13)
